@@ -91,3 +91,63 @@ func TraceString(evs []Ev) string {
 	}
 	return strings.Join(parts, " ")
 }
+
+type Nonconf struct {
+	ID  string `json:"id"`
+	Pos int    `json:"pos"` // number of events explained
+	Len int    `json:"len"`
+}
+
+type ModelVerdict struct {
+	Accepted int
+	Rejected []Nonconf
+	States   int64
+	Wall     time.Duration
+	Runs     int
+	Err      error
+}
+
+var hwRe = regexp.MustCompile(`<<"HW", (\d+)>>`)
+
+// ValidateModel checks that every trace is a behaviour of Exec (trace validation by TLC).
+// cfg is ExecTrace.cfg (pinned behaviour, KF on) or ExecTraceDesign.cfg (KF off).
+func ValidateModel(progs []*Program, traces []TraceItem, cfg string) ModelVerdict {
+	var mv ModelVerdict
+	rest := traces
+	for len(rest) > 0 {
+		data := DataModule(progs, rest)
+		r := tlc.Run(tlc.Opts{SpecDir: SpecDir, Extra: map[string]string{"ExecData.tla": data},
+			Module: "ExecTrace", Config: cfg, Workers: 1, Timeout: 15 * time.Minute, DFS: true})
+		mv.Runs++
+		mv.States += r.Distinct
+		mv.Wall += r.Wall
+		if r.TimedOut {
+			mv.Err = fmt.Errorf("TLC timed out in trace validation")
+			return mv
+		}
+		if r.Violation == "NotAccepted" {
+			mv.Accepted += len(rest)
+			return mv
+		}
+		m := hwRe.FindStringSubmatch(r.Out)
+		if m == nil || !r.OK {
+			tail := r.Out
+			if len(tail) > 3000 {
+				tail = tail[len(tail)-3000:]
+			}
+			mv.Err = fmt.Errorf("trace validation did not complete:\n%s", tail)
+			return mv
+		}
+		var hw int
+		fmt.Sscanf(m[1], "%d", &hw)
+		k, l := hw/100000, hw%100000
+		if k < 1 || k > len(rest) {
+			mv.Err = fmt.Errorf("bad high-water mark %d", hw)
+			return mv
+		}
+		mv.Accepted += k - 1
+		mv.Rejected = append(mv.Rejected, Nonconf{ID: rest[k-1].ID, Pos: l - 1, Len: len(rest[k-1].Evs)})
+		rest = rest[k:]
+	}
+	return mv
+}
